@@ -101,7 +101,8 @@ class Gen:
         self.lines, self.answers, self.tags = [], [], []
         self.slots = [Slot(), Slot()]
         self.sizes = [[256, 256, 64, 8], [256, 256, 64, 8]]
-        self.fmt = 1
+        self.fmts = [1, 1]
+        self.mixed = False
         self.dist = {}
 
     # ---- driver I/O
@@ -236,7 +237,7 @@ class Gen:
         vid, atts, hsz = self.att_target(s)
         names = [a[0] for a in atts]
         text = r.chance(1, 3)
-        maxt = 11 if self.fmt == 5 else 6
+        maxt = 11 if self.fmts[s] == 5 else 6
         xtype = 2 if text else r.choice([t for t in range(1, maxt + 1) if t != 2])
         special = r.below(30)
         if atts and r.chance(2, 5):
@@ -256,7 +257,7 @@ class Gen:
         else:
             raw = self.fresh_name(names, hsz)
         if special == 4 and not text:
-            xtype = r.choice([0, -3, 12, 99, 2, 7 if self.fmt != 5 else 2, 11 if self.fmt != 5 else 12])
+            xtype = r.choice([0, -3, 12, 99, 2, 7 if self.fmts[s] != 5 else 2, 11 if self.fmts[s] != 5 else 12])
             self.count('putatt:badtype')
         vals = self.values(xtype, text)
         if raw == FILLVALUE and r.chance(3, 4):
@@ -356,10 +357,10 @@ class Gen:
         k = r.below(20)
         raw = self.bad_name() if k == 0 else (r.choice(sl.vars)['name'] if k == 1 and sl.vars else
                                               self.fresh_name([v['name'] for v in sl.vars], self.sizes[s][1]))
-        maxt = 11 if self.fmt == 5 else 6
+        maxt = 11 if self.fmts[s] == 5 else 6
         xtype = r.range(1, maxt)
         if k == 2:
-            xtype = r.choice([0, -1, 12, 7 if self.fmt != 5 else 13, 11 if self.fmt != 5 else 100])
+            xtype = r.choice([0, -1, 12, 7 if self.fmts[s] != 5 else 13, 11 if self.fmts[s] != 5 else 100])
             self.count('var:bad-type')
         fixed = [i for i, d in enumerate(sl.dims) if d[1] != 0 and d[1] < 100]
         unl = [i for i, d in enumerate(sl.dims) if d[1] == 0]
@@ -433,7 +434,7 @@ class Gen:
     def do_create(self, s):
         sz = self.sizes_for_episode()
         self.sizes[s] = sz
-        self.send('CREATE %d %d %d %d %d %d' % (s, self.fmt, sz[0], sz[1], sz[2], sz[3]), 'mode')
+        self.send('CREATE %d %d %d %d %d %d' % (s, self.fmts[s], sz[0], sz[1], sz[2], sz[3]), 'mode')
         sl = self.slots[s] = Slot()
         sl.open, sl.indef, sl.exists = True, True, True
         self.refresh(s)
@@ -447,7 +448,12 @@ class Gen:
 
     def episode(self):
         r = self.rng
-        self.fmt = r.choice([1, 2, 5, 5])
+        f0 = r.choice([1, 2, 5, 5])
+        # the two files of an episode have different formats only when the tree rejects a copy of an extended-type
+        # attribute into a classic file (repair of C07-D1); without the repair such a copy produces an unreadable file
+        self.fmts = [f0, r.choice([1, 2, 5, 5]) if self.mixed and r.chance(1, 2) else f0]
+        if self.fmts[0] != self.fmts[1]:
+            self.count('episode:mixed-formats')
         self.do_create(0)
         if r.chance(1, 2):
             self.do_create(1)
@@ -584,23 +590,37 @@ def run_check(tier, seed):
                   extra=['-I' + tree + '/src/drivers/ncmpio', '-I' + tree + '/src/drivers/include', '-I' + tree + '/src/include', '-DHAVE_CONFIG_H'])
         nep, nops = (24, 80) if tier == 'quick' else (400, 250)
         scripts = []
+        # directed script: the one place where the code does not follow the reference model (known defect):
+        # copy_att of an NC_UINT64 attribute from a CDF-5 file into a CDF-1 file
+        W = ['CREATE 0 5 8 8 8 8', 'CREATE 1 1 8 8 8 8', 'PUTATT 0 -1 %s L 11 1 5' % tok(b'big'), 'COPYATT 0 -1 %s 1 -1' % tok(b'big')]
+        # which variant of ncmpio_copy_att does the tree follow?  (witness of copy_att_refines_counterexample)
+        dv = os.path.join(wd, 'variant')
+        os.makedirs(dv, exist_ok=True)
+        pv = subprocess.run([hexe, dv], input='\n'.join(W) + '\n', stdout=subprocess.PIPE, stderr=subprocess.PIPE, text=True, timeout=300)
+        wa = pv.stdout.split('\n')
+        copychk = 1 if len(wa) > 3 and wa[3].strip() == '-232' else 0
+        V.cov['copy_att_variant'] = 'rejects extended types for CDF-1/2 output (repaired)' if copychk else 'as in the source: no format check (C07-D1)'
+        log('[S4] copy_att of an NC_UINT64 attribute into a CDF-1 file answers %r -> model variant copyChk=%d' % (wa[3] if len(wa) > 3 else '?', copychk))
+        cfg = 'CFG %d' % copychk
+        L = [cfg] + W
+        if copychk:     # the consequence the defect had: the output file must now be readable after close and reopen
+            L += ['DUMP 1', 'ENDDEF 1', 'CLOSE 1', 'OPEN 1 0 8 8 8 8', 'DUMP 1', 'CLOSE 1', 'CLOSE 0']
+        p = subprocess.run([drv], input='\n'.join(L) + '\n', stdout=subprocess.PIPE, text=True)
+        scripts.append(('cross-format-copy', L, p.stdout.split('\n')[:len(L)], ['mode', 'mode', 'mode', 'mut', 'mut'] + ['mode'] * (len(L) - 5)))
         cdir = os.path.join(VERIF, 'corpus', PROP)
         if os.path.isdir(cdir):
             for fn in sorted(os.listdir(cdir)):
                 if fn.endswith('.txt'):
-                    p = subprocess.run([drv], input=open(os.path.join(cdir, fn)).read(), stdout=subprocess.PIPE, text=True)
-                    L = [l for l in open(os.path.join(cdir, fn)).read().split('\n') if l]
-                    scripts.append(('corpus/' + fn, L, p.stdout.split('\n')[:len(L)], ['corpus'] * len(L)))
-        # directed script: the one place where the code does not follow the reference model (known defect):
-        # copy_att of an NC_UINT64 attribute from a CDF-5 file into a CDF-1 file
-        L = ['CREATE 0 5 8 8 8 8', 'CREATE 1 1 8 8 8 8', 'PUTATT 0 -1 %s L 11 1 5' % tok(b'big'), 'COPYATT 0 -1 %s 1 -1' % tok(b'big')]
-        p = subprocess.run([drv], input='\n'.join(L) + '\n', stdout=subprocess.PIPE, text=True)
-        scripts.append(('cross-format-copy', L, p.stdout.split('\n')[:len(L)], ['mode', 'mode', 'mut', 'mut']))
+                    L = [cfg] + [l for l in open(os.path.join(cdir, fn)).read().split('\n') if l and not l.startswith('CFG')]
+                    p = subprocess.run([drv], input='\n'.join(L) + '\n', stdout=subprocess.PIPE, text=True)
+                    scripts.append(('corpus/' + fn, L, p.stdout.split('\n')[:len(L)], ['mode'] + ['corpus'] * (len(L) - 1)))
         dist = {}
         t1 = Timer()
         for ep in range(nep):
             p = subprocess.Popen([drv], stdin=subprocess.PIPE, stdout=subprocess.PIPE, text=True, bufsize=1)
             g = Gen(rng, p, nops)
+            g.mixed = bool(copychk)
+            g.send(cfg, 'mode')
             g.episode()
             p.stdin.close()
             p.wait()
@@ -639,7 +659,7 @@ def run_check(tier, seed):
                     tie_diffs.append(dict(script=name, index=i, line=line[:300], impl=impl[:400], model=mod[:400]))
                 if op == 'DUMP' and not ids_agree(impl):
                     prop_fail.append(dict(sig='meta:name-id-disagree', what='lookup by name disagrees with lookup by id: ' + impl[:300], script=lines[:i + 1]))
-                if tags[i] in ('mut', 'mode', 'inq'):
+                if tags[i] in ('mut', 'mode', 'inq') and op != 'CFG':
                     e = impl.split(' ')[0]
                     dist['op:' + op] = dist.get('op:' + op, 0) + 1
                     if e not in ('0', 'closed'):
